@@ -23,7 +23,9 @@ fn lines_as_plain<A: AnnJson + std::fmt::Debug + Eq + PartialEq + Clone + Defaul
     v
 }
 
-struct World<D: TextDecorator> { mk: Box<dyn Fn() -> Config<D>>, docs: Vec<Vec<u8>>, doms: Vec<RcDom>, trees: Vec<Option<RenderTree>> }
+/// `shared` is one configuration object used for every staged call of the history (the staged methods take
+/// `&self`: nothing may be left behind in it by an earlier call); one-shot calls consume a fresh one.
+struct World<D: TextDecorator> { mk: Box<dyn Fn() -> Config<D>>, shared: Config<D>, docs: Vec<Vec<u8>>, doms: Vec<RcDom>, trees: Vec<Option<RenderTree>> }
 
 fn step<D: TextDecorator>(wd: &mut World<D>, op: &Value, rich: Option<&dyn Fn(Config<D>, &[u8], usize) -> Outcome>, rich_tree: Option<&dyn Fn(&Config<D>, RenderTree, usize) -> Outcome>) -> Value
 where D::Annotation: AnnJson + std::fmt::Debug + Eq + PartialEq + Clone + Default {
@@ -44,11 +46,11 @@ where D::Annotation: AnnJson + std::fmt::Debug + Eq + PartialEq + Clone + Defaul
             }
             "parse" => {
                 let d = &wd.docs[op["doc"].as_u64().unwrap_or(1) as usize - 1];
-                match (wd.mk)().parse_html(&d[..]) { Ok(dom) => { wd.doms.push(dom); (Outcome::Ok(json!({"lines": [], "sw": []})), json!(wd.doms.len())) } Err(e) => (err(e), json!(0)) }
+                match wd.shared.parse_html(&d[..]) { Ok(dom) => { wd.doms.push(dom); (Outcome::Ok(json!({"lines": [], "sw": []})), json!(wd.doms.len())) } Err(e) => (err(e), json!(0)) }
             }
             "tree" => {
                 let k = op["dom"].as_u64().unwrap_or(1) as usize - 1;
-                match (wd.mk)().dom_to_render_tree(&wd.doms[k]) { Ok(t) => { wd.trees.push(Some(t)); (Outcome::Ok(json!({"lines": [], "sw": []})), json!(wd.trees.len())) } Err(e) => (err(e), json!(0)) }
+                match wd.shared.dom_to_render_tree(&wd.doms[k]) { Ok(t) => { wd.trees.push(Some(t)); (Outcome::Ok(json!({"lines": [], "sw": []})), json!(wd.trees.len())) } Err(e) => (err(e), json!(0)) }
             }
             "clone" => {
                 let t = op["tree"].as_u64().unwrap_or(1) as usize - 1;
@@ -59,10 +61,10 @@ where D::Annotation: AnnJson + std::fmt::Debug + Eq + PartialEq + Clone + Defaul
             "render" => {
                 let t = op["tree"].as_u64().unwrap_or(1) as usize - 1;
                 let tree = wd.trees[t].take().expect("live tree");
-                let c = (wd.mk)();
+                let c = &wd.shared;
                 let o = match route {
                     "lines" => match c.render_to_lines(tree, w) { Ok(l) => Outcome::Ok(lines_as_plain(&l)), Err(e) => err(e) },
-                    "coloured" => match rich_tree { Some(f) => f(&c, tree, w), None => Outcome::Fail("no coloured".into()) },
+                    "coloured" => match rich_tree { Some(f) => f(c, tree, w), None => Outcome::Fail("no coloured".into()) },
                     _ => match c.render_to_string(tree, w) { Ok(s) => Outcome::Ok(plain_lines(&s)), Err(e) => err(e) },
                 };
                 (o, json!(0))
@@ -84,7 +86,8 @@ fn run_with<D: TextDecorator + 'static>(mk: Box<dyn Fn() -> Config<D>>, case: &V
     rich: Option<&dyn Fn(Config<D>, &[u8], usize) -> Outcome>, rich_tree: Option<&dyn Fn(&Config<D>, RenderTree, usize) -> Outcome>) -> Value
 where D::Annotation: AnnJson + std::fmt::Debug + Eq + PartialEq + Clone + Default {
     let docs: Vec<Vec<u8>> = case["docs"].as_array().map(|a| a.iter().map(|d| d.as_str().unwrap_or("").as_bytes().to_vec()).collect()).unwrap_or_default();
-    let mut wd = World { mk, docs, doms: vec![], trees: vec![] };
+    let shared = mk();
+    let mut wd = World { mk, shared, docs, doms: vec![], trees: vec![] };
     let mut out = vec![];
     for op in h.as_array().map(|a| a.as_slice()).unwrap_or(&[]) { out.push(step(&mut wd, op, rich, rich_tree)); }
     Value::Array(out)
